@@ -478,6 +478,13 @@ func (c *c12) partB(P string) {
 		if adm {
 			samples = append(samples, nonCanonicalSamples(K)...)
 		}
+		if adm && K == "XMLSchemaDuration" {
+			// a sweep across and far beyond what a time.Duration holds: one
+			// component, and two that only overflow together
+			for y := 280; y <= 3600; y += 13 {
+				samples = append(samples, fmt.Sprintf("P%dY", y), fmt.Sprintf("-P%dYT%dH", y/2, (y-y/2)*8760), fmt.Sprintf("P%dM%dD", y*6, y*182))
+			}
+		}
 		if adm && *tier == "thorough" {
 			for i := 0; i < 6000; i++ {
 				samples = append(samples, randomSample(K, prng.New(r.SeedV, "C12.lit."+P+"."+K, i)))
